@@ -183,3 +183,56 @@ Section Leaf.
             split; [exact (len_ok Hall)|]; split; [exact (mult_ok Hall)|exact (enum_ok Hall Hk)]).
   Qed.
 End Leaf.
+
+(* ---- an alternative of an `or` rule: the type keyword follows the alternative's own type, `const` lists the example
+   of the node that carries the rule (cex) ---- *)
+Section Alt.
+  Variable cex : bytes.
+  Variable k : jkind.
+  Variable rules : list rule.
+  Variable v : bytes.
+  Hypothesis Hsmall : exp_small v.
+  Hypothesis Hbounds : bounds_readable rules.
+  Hypothesis Hnull_lit : lit_kind v = KNull -> v = w_null_lit.
+  Hypothesis Hv : validate (Leaf k rules) (Some cex) v = true.
+  (* the loader admits an enum rule only in an alternative of type "enum" (error 1111 otherwise) *)
+  Hypothesis Hnull_enum : k = KNull -> existsb is_enum rules = false.
+
+  Lemma alt_cases : (existsb is_nullable rules = true /\ v = w_null_lit) \/
+                    ((existsb is_enum rules = true \/ lit_kind v = k) /\ forall r, In r rules -> validate_rule v (Some cex) r = true).
+  Proof.
+    pose proof Hv as H. cbn [validate] in H.
+    destruct (beq_bytes v w_null_lit) eqn:Bn.
+    - destruct (existsb is_nullable rules) eqn:En; [left; split; [reflexivity|apply list_eqb_eq; exact Bn]|]. right.
+      cbn [andb orb] in H. rewrite ?andb_false_r, ?orb_false_r in H. apply andb_true_iff in H. destruct H as [H1 H2].
+      split.
+      + apply orb_true_iff in H1. destruct H1 as [H1|H1]; [left; exact H1|right]. destruct (lit_kind v), k; cbn in H1; congruence.
+      + rewrite forallb_forall in H2. exact H2.
+    - right. apply (validate_conj k rules (Some cex) v Bn). exact Hv.
+  Qed.
+
+  Theorem oasx_alt_sound : jx_valid (to_oasx_alt cex (Leaf k rules)) v.
+  Proof.
+    destruct alt_cases as [[Hn Hvn]|[Hk Hall]].
+    - left. split; [|exact Hvn]. unfold to_oasx_alt. destruct k; exact Hn.
+    - right. unfold to_oasx_alt.
+      assert (Henum : jx_enum_ok (if has_const rules then Some [cex] else match first_enum rules with Some (i :: r) => Some (i :: r) | _ => None end) v).
+      { destruct (has_const rules) eqn:Hc.
+        - cbn [jx_enum_ok]. exists cex. split; [left; reflexivity|]. apply key_eqb_jeq. exact (Hall RConst (has_const_in rules Hc)).
+        - destruct (first_enum rules) as [[|i r]|] eqn:He; try exact I.
+          cbn [jx_enum_ok]. pose proof (Hall _ (first_enum_in _ _ He)) as X. apply enum_exact in X. destruct X as (j & Hj & Hkj).
+          exists j. split; [exact Hj|apply key_eqb_jeq; exact Hkj]. }
+      assert (Htype : k <> KNull -> js_type_ok (alt_type k rules) v = true).
+      { intros _. unfold alt_type. destruct (existsb is_enum rules) eqn:En; [reflexivity|].
+        destruct Hk as [Hk'|Hk']; [congruence|]. unfold js_type_ok, is_number_lit. rewrite Hk'. destruct k; reflexivity. }
+      destruct k eqn:Ek; cbn [x_type x_min x_max x_minlen x_maxlen x_multiple x_enum].
+      5: { (* the null type: a Null node with enum [null] *)
+           repeat split; try exact I; try (intros; discriminate).
+           cbn [jx_enum_ok]. exists w_null_lit. split; [left; reflexivity|].
+           destruct Hk as [Hen'|Hkv].
+           - rewrite (Hnull_enum eq_refl) in Hen'. discriminate.
+           - rewrite (Hnull_lit Hkv). unfold jeq. reflexivity. }
+      all: (split; [apply Htype; discriminate|]; split; [exact (min_ok cex rules v Hsmall Hbounds Hall)|]; split; [exact (max_ok cex rules v Hsmall Hbounds Hall)|];
+            split; [exact (len_ok cex rules v Hall)|]; split; [exact (mult_ok cex rules v Hsmall Hall)|exact Henum]).
+  Qed.
+End Alt.
